@@ -257,6 +257,8 @@ func casePerturb(r *vproto.Rng, s string) string {
 	return string(b)
 }
 
+func exportNameLower(s string) string { return strings.ToLower(exportName(s)) }
+
 // exported Go identifier derived from s (ASCII only)
 func exportName(s string) string {
 	var b []byte
@@ -275,7 +277,7 @@ func exportName(s string) string {
 	return string(b)
 }
 
-func uniqueNames(r *vproto.Rng, n int, allowCollide bool) []string {
+func uniqueNames(r *vproto.Rng, n int, allowCollide, allowLong bool) []string {
 	out := []string{}
 	seenExact := map[string]bool{"G": true}
 	seenLower := map[string]bool{}
@@ -285,7 +287,7 @@ func uniqueNames(r *vproto.Rng, n int, allowCollide bool) []string {
 			s = fmt.Sprintf("F%d", r.Intn(1000))
 		}
 		s = exportName(s)
-		if seenExact[s] {
+		if seenExact[s] || (!allowLong && len(s) > 10) {
 			continue
 		}
 		if seenLower[strings.ToLower(s)] && !(allowCollide && r.Intn(2) == 0) {
@@ -304,19 +306,103 @@ type colPlan struct {
 	kind    string // i f s
 	edge    bool   // string edge cases allowed
 	numText bool   // string column holding numeric-looking text (may be read back as int/float)
+	wide    bool   // values wider than the column / non-finite floats allowed
+	spaces  bool   // NUL-free strings with blanks at the ends (the known finding)
+	prec    int
+}
+
+// an int whose rendering fits w characters (boundaries included)
+func genIntFit(r *vproto.Rng, w int) int {
+	if w > 18 {
+		w = 18
+	}
+	if w < 1 {
+		return 0
+	}
+	maxPos := int(math.Pow10(w)) - 1
+	maxNeg := int(math.Pow10(w-1)) - 1
+	switch r.Intn(6) {
+	case 0:
+		return maxPos
+	case 1:
+		return -maxNeg
+	case 2:
+		return []int{0, 1, -1, 7}[r.Intn(4)] % (maxNeg + 1)
+	default:
+		v := int(r.U64() % uint64(maxPos+1))
+		if r.Bool() {
+			v = -(v % (maxNeg + 1))
+		}
+		return v
+	}
+}
+
+// a finite float whose 'f' rendering with prec decimals fits w characters
+func genFloatFit(r *vproto.Rng, w, prec int) float64 {
+	frac := 0
+	if prec > 0 {
+		frac = prec + 1
+	}
+	k := w - frac - 2 // integer digits available, one reserved for the sign, one as margin
+	if k < 1 {
+		return []float64{0, 0.25, 0.5}[r.Intn(3)]
+	}
+	if k > 17 {
+		k = 17
+	}
+	var v float64
+	switch r.Intn(6) {
+	case 0:
+		v = []float64{0, math.Copysign(0, -1), 1.5, -1.5, 1e-10, 1e-11, 5e-11, -5e-11, 4.9e-324, 0.00048828125, 0.5, 2.5, 0.1, 0.2, 1.0 / 3, -2.0 / 3}[r.Intn(16)]
+	case 1:
+		v = float64(2*r.Range(-50, 50)+1) * math.Pow(2, -float64(r.Range(11, 16)))
+	case 2:
+		v = float64(r.Range(-100000, 100000)) / 1000
+	case 3:
+		v = math.Pow10(k) * (1 - 1e-15) * float64(1-2*r.Intn(2)) // just below the width limit
+	default:
+		v = (r.Float() - 0.5) * math.Pow(10, float64(r.Range(-12, k)))
+	}
+	if math.Abs(v) >= math.Pow10(k) {
+		v = math.Mod(v, math.Pow10(k))
+	}
+	return v
 }
 
 func genVal(r *vproto.Rng, p colPlan, max int) val {
 	switch p.kind {
 	case "i":
+		if !p.wide {
+			return val{k: 'i', i: genIntFit(r, max)}
+		}
 		return val{k: 'i', i: genInt(r)}
 	case "f":
+		if !p.wide {
+			return val{k: 'f', f: genFloatFit(r, max, p.prec)}
+		}
 		return val{k: 'f', f: genFloat(r)}
 	default:
 		if p.numText {
 			return val{k: 's', s: genNumText(r)}
 		}
-		return val{k: 's', s: genStr(r, p.edge, max)}
+		if max > 50 && !p.wide {
+			max = 50
+		}
+		st := genStr(r, p.edge, max)
+		if p.spaces && r.Intn(4) == 0 && max >= 2 {
+			switch r.Intn(3) {
+			case 0:
+				st = " " + st
+			case 1:
+				st = st + " "
+			default:
+				st = (st + strings.Repeat("w", max))[:max-1] + " " // a blank at the very end of a full cell
+			}
+			if len(st) > max {
+				st = st[:max]
+			}
+		}
+		return val{k: 's', s: st}
 	}
 }
 
@@ -346,22 +432,27 @@ func genCase(r *vproto.Rng, tier string) fcase {
 	kind := strings.Fields(kinds)[r.Intn(6)]
 	nullFile := false
 	ncols := []int{0, 1, 1, 2, 2, 3, 3, 4, 5, 6}[r.Intn(10)]
-	edgeFile := r.Intn(5) == 0    // string edge cases (spaces, NULs, over-long) allowed
-	collide := r.Intn(6) == 0     // names colliding after lower-casing allowed
-	crossFile := r.Intn(6) == 0   // some columns are read back with another type
+	loose := r.Intn(5) == 0                // inputs outside the statement's quantifier allowed (model-vs-code only)
+	edgeFile := loose                      // string edge cases (NULs, over-long) allowed
+	collide := loose && r.Intn(2) == 0     // names colliding after lower-casing allowed
+	crossFile := loose && r.Intn(2) == 0   // some columns are read back with another type
+	spaces := !loose && r.Intn(10) == 0    // NUL-free strings with blanks at the ends
 	plans := make([]colPlan, ncols)
 	for i := range plans {
-		plans[i] = colPlan{kind: []string{"i", "f", "s"}[r.Intn(3)], edge: edgeFile}
+		plans[i] = colPlan{kind: []string{"i", "f", "s"}[r.Intn(3)], edge: edgeFile, wide: loose, spaces: spaces, prec: 10}
 		if crossFile && plans[i].kind == "s" && r.Intn(2) == 0 {
 			plans[i].numText = true
 		}
 	}
-	names := uniqueNames(r, ncols, collide)
+	names := uniqueNames(r, ncols, collide, loose)
 	tags := make([]string, ncols)
 	for i := range tags {
 		switch r.Intn(6) {
 		case 0:
 			tags[i] = strings.ToLower(namePool[r.Intn(len(namePool))])
+			if !loose && (len(tags[i]) > 10 || tags[i] != exportNameLower(tags[i])) {
+				tags[i] = ""
+			}
 		case 1:
 			tags[i] = casePerturb(r, fmt.Sprintf("t%d", r.Intn(100)))
 		case 2:
@@ -417,7 +508,7 @@ func genCase(r *vproto.Rng, tier string) fcase {
 			if nm == "" {
 				nm = names[i]
 			}
-			if r.Intn(10) == 0 {
+			if loose && r.Intn(5) == 0 {
 				nm = nm + " " // padded name
 			}
 			f := ffield{name: nm}
@@ -426,6 +517,7 @@ func genCase(r *vproto.Rng, tier string) fcase {
 				f.typ, f.size = 'N', []int{10, 10, 5, 18, 20, 1}[r.Intn(6)]
 			case "f":
 				f.typ, f.size, f.prec = 'F', []int{30, 30, 20, 12, 40}[r.Intn(5)], []int{10, 10, 10, 0, 3, 15}[r.Intn(6)]
+				plans[i].prec = f.prec
 			default:
 				f.typ, f.size = 'C', []int{50, 50, 10, 254, 255, 1}[r.Intn(6)]
 			}
@@ -439,7 +531,7 @@ func genCase(r *vproto.Rng, tier string) fcase {
 	if r.Intn(3) == 0 {
 		rk = "gI"
 	}
-	if r.Intn(40) == 0 {
+	if loose && r.Intn(8) == 0 {
 		rk = kind // same struct for reading: panics for gLS/gB
 	}
 	effName := func(i int) string {
@@ -515,7 +607,7 @@ func genCase(r *vproto.Rng, tier string) fcase {
 				c.r.names = append(c.r.names, casePerturb(r, strings.TrimSpace(effName(i))))
 			}
 		}
-		if r.Intn(30) == 0 {
+		if loose && r.Intn(6) == 0 {
 			c.r.names = append(c.r.names, "nosuchfield")
 		}
 	}
@@ -528,16 +620,16 @@ func genCase(r *vproto.Rng, tier string) fcase {
 		if nullFile {
 			rc.g = nil
 		}
-		if kind == "gB" && c.w.path == 'S' && r.Intn(60) == 0 {
+		if loose && kind == "gB" && c.w.path == 'S' && r.Intn(20) == 0 {
 			rc.g = nil // typed nil *Bounds: Encode panics
 		}
 		nv := ncols
-		if c.w.path == 'F' && ncols > 0 && r.Intn(25) == 0 {
+		if loose && c.w.path == 'F' && ncols > 0 && r.Intn(10) == 0 {
 			nv = r.Intn(ncols) // fewer values than fields
 		}
 		for j := 0; j < nv; j++ {
 			p := plans[j]
-			if c.w.path == 'F' && r.Intn(40) == 0 { // a value of another type in that column
+			if loose && c.w.path == 'F' && r.Intn(15) == 0 { // a value of another type in that column
 				p = colPlan{kind: []string{"i", "f", "s"}[r.Intn(3)], numText: true}
 			}
 			rc.vals = append(rc.vals, genVal(r, p, widths[j]))
@@ -628,9 +720,9 @@ func gen(seed uint64, tier string) {
 	for _, c := range corpus() {
 		fmt.Fprintln(out, c.line())
 	}
-	n := 1200
+	n := 3000
 	if tier == "thorough" {
-		n = 12000
+		n = 40000
 	}
 	for i := 0; i < n; i++ {
 		fmt.Fprintln(out, genCase(r, tier).line())
